@@ -152,7 +152,7 @@ CHECKS = {
         "against the implementation on every generated history (SpecCut/SpecLazy: exact substitution sets; the independently "
         "written eager trace semantics SpecSolve: answers up to renaming of unbound variables), and the executable solver "
         "model - the object of the theorems - is compared with the implementation on full substitution sets, variable-id "
-        "counter and output.", ref="7/C01",
+        "counter and output. The reference itself is shown to BE depth-first SLD resolution in program order for cut-free programs (Properties/C01laws.v, Proofs/SldOrder.v): it equals, at every fuel, a direct-style stream-of-successes interpreter without continuations or signals (C01_sld_continuation); conjunction is bind over the resumable answer stream of its first goal, disjunction is append from the same substitution, a call is the concatenation over its clauses in program order of head unification followed by the body (C01_sld_conjunction, _disjunction, _call, _clauses) - and the naive law over plain answer lists is refuted by a compiled example, because fetched clauses take their ids from the world the search has reached (C01sld_naive_list_law_is_false).", ref="7/C01",
    technique="Coq refinement proof (solver model refines the reference depth-first search, all programs) + extracted Coq reference semantics as oracles vs implementation + model-vs-implementation correspondence"),
  "C02": dict(
    text="PROVED: (1) the engine yields exactly the answers of the reference search Spec/SpecCut.v for every program with cut "
